@@ -4,6 +4,7 @@ package dtls
 
 import (
 	"fmt"
+	"os"
 	"testing"
 	"testing/synctest"
 	"time"
@@ -12,22 +13,24 @@ import (
 // TestVF_Debug: ad-hoc scenario runner used while triaging (not registered as a check).
 func TestVF_Debug(t *testing.T) {
 	vfGetPKI()
+	if os.Getenv("VERIF_DEBUG") == "" {
+		t.Skip("debug only")
+	}
 	synctest.Test(t, func(t *testing.T) {
-		cfg := vfBaseCfg(vfSuiteByName("RSA-CHACHA"), "rsa")
-		cfg.Store, cfg.Verify, cfg.ClientCert = true, true, true
-		cs, ss := vfNewMemStore("c"), vfNewMemStore("s")
 		vfDumpWire = true
-		for round := 0; round < 2; round++ {
-			n := vfNewNet()
-			co, so := cfg.Options(cs, ss)
-			p, err := vfNewPair(n, co, so)
-			if err != nil {
-				t.Fatal(err)
+		res := vfNewResult("DBG", "debug")
+		var v vfVariant
+		for _, x := range vfC02Variants() {
+			if x.Name == os.Getenv("VERIF_DEBUG") {
+				v = x
 			}
-			ce, se := p.Handshake(20 * time.Second)
-			fmt.Printf("round %d: client=%v server=%v cstore=%s sstore=%s\n", round, ce, se, cs.LogString(), ss.LogString())
-			p.Close()
-			synctest.Wait()
+		}
+		var cut int
+		fmt.Sscanf(os.Getenv("VERIF_DEBUG_CUT"), "%d", &cut)
+		c := vfC17Case{V: v, Target: os.Getenv("VERIF_DEBUG_TARGET"), Cut: cut, Interval: time.Second, Backoff: true, Mode: os.Getenv("VERIF_DEBUG_MODE")}
+		vfC17Silence(res, c)
+		for _, vi := range res.Violations {
+			fmt.Println("VIOL", vi.Signature, vi.What[:min(len(vi.What), 300)])
 		}
 	})
 }
